@@ -79,6 +79,7 @@ class Decoder:
         self.data = data
         self.cfg = cfg
         self.rec = bytearray(len(data)) if record else None
+        self.units: list = []  # (position, size) of every bit-field storage unit read
         self.noncanonical = False  # saw a NaN float or a non-minimal LEB128 (outside C02's byte-fidelity claim)
 
     def need(self, pos: int, n: int, rec: bool = True) -> bytes:
@@ -229,6 +230,7 @@ class Decoder:
                     ub = self.need(cur, ssz, rec=False)
                     cur_unit = int.from_bytes(ub, cfg.bo)
                     ucur = cur
+                    self.units.append((cur, ssz))
                     cur += ssz
                 sh = used if cfg.endian == "<" else ssz * 8 - used - f.bits
                 v = (cur_unit >> sh) & ((1 << f.bits) - 1)
@@ -268,6 +270,7 @@ def decode_with_mask(t, data: bytes, cfg: Cfg, pos: int = 0, info: dict | None =
     v, end = d.decode(t, pos)
     if info is not None:
         info["noncanonical"] = d.noncanonical
+        info["units"] = list(d.units)
     return v, end, bytes(d.rec[pos:end])
 
 
